@@ -19,9 +19,12 @@
 // (value / which exception, with the number of calls entered and left at that moment).
 // Monitors on the implementation's log are evaluated by tools/props/c11.py (lock_monitor).
 //
-// usage: c11_trace <seed> <ncases> <W> [<start_id>]
+// usage: c11_trace <seed> <ncases> <W> [<start_id> [<D>]]
+// D > 0: the bulk operation runs on a SECOND pool "bulk" with W PUs created through the resource partitioner behind a
+// default pool with D PUs (global worker numbers D .. D+W-1, pool-local 0 .. W-1); case ids are then "<W>p<D>-<c>".
 #include <pika/execution.hpp>
 #include <pika/init.hpp>
+#include <pika/runtime.hpp>
 #include <pika/thread.hpp>
 
 #include <atomic>
@@ -228,12 +231,33 @@ int main(int argc, char** argv)
     int ncases = std::atoi(argv[2]);
     int W = std::atoi(argv[3]);
     int start = argc > 4 ? std::atoi(argv[4]) : 0;
+    static int D = 0, WW = 0;
+    D = argc > 5 ? std::atoi(argv[5]) : 0;
+    WW = W;
 
-    std::string a0 = argv[0], a1 = "--pika:threads=" + std::to_string(W);
+    std::string a0 = argv[0], a1 = "--pika:threads=" + std::to_string(W + D);
     std::vector<char*> av = {a0.data(), a1.data(), nullptr};
-    pika::start(2, av.data());
+    pika::init_params ip;
+    if (D > 0)
+        ip.rp_callback = [](pika::resource::partitioner& rp, pika::program_options::variables_map const&) {
+            rp.create_thread_pool("bulk", pika::resource::scheduling_policy::local_priority_fifo);
+            int n = 0, used = 0;
+            for (auto const& s : rp.sockets())
+                for (auto const& c : s.cores())
+                    for (auto const& p : c.pus())
+                    {
+                        if (n >= D && used < WW)
+                        {
+                            rp.add_resource(p, "bulk");
+                            ++used;
+                        }
+                        ++n;
+                    }
+        };
+    pika::start(2, av.data(), ip);
     pika::verif::hook.store(&hook_fn);
-    auto* pool = &pika::resource::get_thread_pool("default");
+    auto* pool = &pika::resource::get_thread_pool(D > 0 ? "bulk" : "default");
+    std::string const idp = D > 0 ? std::to_string(W) + "p" + std::to_string(D) : std::to_string(W);
     if (int(pool->get_os_thread_count()) != W)
     {
         std::printf("TIEFAIL pool has %zu threads\n", pool->get_os_thread_count());
@@ -416,9 +440,10 @@ int main(int argc, char** argv)
         std::string sg;
         for (std::size_t i = 0; i < sigs.size(); ++i) sg += (i ? "|" : "") + sigs[i];
         if (sg.empty()) sg = "-";
-        std::printf("IN TR %d-%d %d %d 32 %d %s %s\n", W, c, W, n, local, spec.c_str(), join(sched_v).c_str());
-        std::printf("OUT TR %d-%d sites=%s calls=%s exits=%s thrown=%s sigs=%s fin=%s rem=%d\n", W, c, join(sites).c_str(),
-            join(calls).c_str(), join(exits).c_str(), join(thrown).c_str(), sg.c_str(), join(fin).c_str(), W - int(fin.size()));
+        std::printf("IN TR %s-%d %d %d 32 %d %s %s\n", idp.c_str(), c, W, n, local, spec.c_str(), join(sched_v).c_str());
+        std::printf("OUT TR %s-%d sites=%s calls=%s exits=%s thrown=%s sigs=%s fin=%s rem=%d\n",
+            idp.c_str(), c, join(sites).c_str(), join(calls).c_str(), join(exits).c_str(), join(thrown).c_str(), sg.c_str(), join(fin).c_str(),
+            W - int(fin.size()));
         std::fflush(stdout);
     }
     pika::verif::hook.store(nullptr);
